@@ -251,6 +251,86 @@ def rwmisc_obls(prefix):
     return out
 
 
+# ---- META fragments for the properties that import this module ---------------------
+LIBC_MODELS = [
+    "harness/envunix/libc.h: monitoring models of open/close/write/read/pread/lseek/fsync/fdatasync/fcntl(F_GETFD,F_SETFD,F_SETLK)/"
+    "fstat/stat/unlink/rename/mkdir/rmdir/mmap/munmap/getrlimit/pthread_once, reached by macro renaming inside the harness TU "
+    "(same binding under CBMC and in the native replay); CBMC's own errno (__errno_location)",
+    "every modelled call returns a symbolic result: success, EINTR (budgeted), failure with ANY errno 1..4095 (except EINTR, and "
+    "except the values the real code treats specially where stated), short count for write/read (budgeted), EINVAL for O_CLOEXEC, "
+    "ENOSYS for fdatasync; after success errno holds an arbitrary value",
+    "file contents are not modelled: appended bytes are identified by their offset in the appended stream; memcpy into the 64 KiB "
+    "buffer is an O(1) range recorder with explicit in-bounds assertions (it replaces byte-level bounds checks); the buffer keeps "
+    "its real size 65536",
+    "descriptor numbers are never reused; close(2) always releases the descriptor (Linux) even when it reports an error; closing any "
+    "descriptor of a file drops the process' fcntl record lock on it (POSIX)",
+    "allocator: the 65560-byte ldb_wfile_t is one static object per run, other allocations are malloc that never fails; "
+    "ldb_mutex_lock/unlock are counters (lock harness) or no-ops",
+    "lock table container: array model of rb_set_has/put/del calling the real comparator by_fileid (quick tier), real util/rbt.c (thorough tier)",
+]
+
+META_C02F = {
+    "bounds": [
+        "C02.f writable file of env_unix_impl.h: inductive steps -- real create establishes the invariant, then ONE real append (size "
+        "symbolic 0..140000) / flush / sync / close+destroy from an ARBITRARY state within the invariant (pos 0..65536 symbolic), every "
+        "libc call failing symbolically; <=1 EINTR and <=1 short write per step, the retry loop ldb_write on its own with <=2 (quick) / "
+        "<=3 (thorough) short writes and <=2 EINTR and symbolic length 0..140000",
+        "file names: db/000005.log, db/MANIFEST-000002 (quick); MANIFEST-000004, /MANIFEST-000007, MANIFEST.d/000003.ldb, a//MANIFEST (thorough)",
+        "both sync configurations: fsync only (flag set of lib/vp.py) and -DLDB_HAVE_FDATASYNC (what CMake defines on Linux)",
+        "whole runs create->3 appends (65535, 2, 140000 bytes)->sync/flush->close->destroy with succeeding calls (quick); with one "
+        "failing call, one short write, one EINTR at symbolic places for 4 concrete size/schedule tuples (thorough)",
+    ],
+    "outside": [
+        "write(2) returning 0 for a non-zero count (the real loop would spin); single appends above 140000 bytes, in particular the "
+        "2^30 chunking of ldb_write/ldb_read; more than 3 short writes or 2 EINTR in one loop (prose: the loop body is the same)",
+        "what the kernel does with accepted bytes (page cache, torn sectors); whether fdatasync suffices on a given file system",
+        "composition of the per-operation steps into histories is by induction over the stated invariant (prose, cross-checked by the whole-run obligations)",
+        "a failing close(2) of the read-only directory descriptor in ldb_sync_dir is ignored by design; a directory fsync failing with "
+        "EINVAL/EBADF counts as success by design (deviation from upstream LevelDB, which reports it)",
+    ],
+    "models": LIBC_MODELS,
+}
+
+META_C12C = {
+    "bounds": [
+        "C12.c same obligations as C02.f: every write/fsync/fdatasync/open/close result symbolic with any errno; asserted: the call in "
+        "which a libc call fails returns that errno (first failing call), a failed write(2) leaves pos==0, the unsent rest of the buffer "
+        "and of the failing append is discarded ONLY inside a call that returned an error, nothing accepted earlier is sent again and the "
+        "next accepted byte is the first byte appended after the failing call; close(2) is called exactly once also after a failed flush",
+        "read side: ldb_read/ldb_pread loops (symbolic length, <=2/3 short reads, <=2 EINTR), ldb_rfile_read, ldb_rfile_pread (kept and "
+        "per-call descriptor, mmap), ldb_read_file, ldb_sync_dir, ldb_remove_file/rename_file/create_dir/remove_dir/file_size: errno "
+        "returned unchanged, never more bytes reported than delivered, descriptors closed exactly once on every path",
+    ],
+    "outside": [
+        "after a write error the file has a hole by contract (same as upstream LevelDB): the caller must stop using it -- that the callers "
+        "do is C12.a/d (db_impl), not this layer",
+        "ldb_copy_file/ldb_link_file, ldb_get_children, ldb_logger_open, time functions; mmap page faults",
+    ],
+    "models": LIBC_MODELS,
+}
+
+META_C20A = {
+    "bounds": [
+        "C20.a ldb_lock_file/ldb_unlock_file: concrete scripts of 2-4 operations (lock by one of 3 names of which two are the same "
+        "(dev,ino), unlock of an earlier handle) with symbolic 64-bit (dev,ino) and every open/stat/fstat/fcntl/close result symbolic: "
+        "quick L0L1, L0L2L0, L0U0L1; thorough L0L0U0L0, L2L0U1L1, L0L2U0U1 and L0L1, L0U0L1 over the real util/rbt.c",
+        "OS-level view included: POSIX drops the process' record lock when any descriptor of the file is closed; asserted that a held "
+        "file stays fcntl-locked and that a refused attempt opens/closes nothing (finding F4, repaired in /repo 4c3f022; reverting the "
+        "repair gives VIOLATION on L0L1 and L0L2L0)",
+    ],
+    "outside": [
+        "assumption: stat(2) of a lock file this process holds locked does not fail (if it failed while open(2) succeeds the repaired "
+        "code falls back to open+fstat+close and drops the lock as before); a file replaced between stat and open",
+        "other processes (only through symbolic fcntl results), flock() builds without F_SETLK, threads (file_mutex is checked to be "
+        "taken and released once per call, not contention)",
+    ],
+    "models": LIBC_MODELS,
+}
+
 # development entry: ./check envunix_common
-OBLIGATIONS = wfile_obls("f") + lockfile_obls("a") + rwmisc_obls("m") + lockfile_finding_obls("z")
-META = {"level": "model_checking", "bounds": [], "outside": [], "models": ["harness/envunix/libc.h"]}
+OBLIGATIONS = wfile_obls("f") + lockfile_obls("a") + rwmisc_obls("m")
+META = {"level": "model_checking",
+        "level_text": "development entry for the env_unix_impl.h obligations; the properties C02/C12/C20 import the *_obls functions",
+        "bounds": META_C02F["bounds"] + META_C12C["bounds"] + META_C20A["bounds"],
+        "outside": META_C02F["outside"] + META_C12C["outside"] + META_C20A["outside"],
+        "models": LIBC_MODELS}
